@@ -27,8 +27,9 @@ Updated after C15More.lean (+ Lemmas/DotMore.lean), which closes GAPS 1, 2, 3, a
 roots the argument BEFORE normalising) and 264b96e (parent of '/name' is '/'; it does not touch any statement here).
 Continued in C15HeadlineMore3.lean (headline theorems over C15Encoded.lean and C15More2.lean, which imports this file:
 the `encoded=True` entry points in general, URLs derived from one that carries dot segments under an authority, and join
-outside the hypotheses of `C15_headline_rfc_join` — GAPS 4, 5, 6).  The GAPS block at the end of THIS file is the one
-that is kept up to date.
+outside the hypotheses of `C15_headline_rfc_join` — GAPS 4, 5, 6).  Continued in C15HeadlineMore5.lean (C15ReachE.lean,
+added later: the closure theorem over histories WITH `encoded=True` steps — GAPS 4, 5, 7, 8).  The GAPS block at the end
+of THIS file is the one that is kept up to date.
 -/
 namespace Yarl
 open PathLemmas PathAlg WfLemmas EntryLemmas DotMore
@@ -445,8 +446,45 @@ GAPS:
         (C15_headline_entry_with_path, _entry_constructor, _entry_build: always clean).
     So the first clause of the property is FALSE outside `ReachC` in exactly the situations the right-hand sides describe
     (witnesses: C15_headline_derived_joinpath_instances, _derived_name_suffix_parent_instances, _derived_join_instances).
-    STILL OPEN: these are per-operation statements; there is no closure theorem over histories that contain
-    `encoded=True` steps (no C15 invariant over `ReachE`, ReachE.lean — there cannot be an unconditional one).  For a
+    WAS STILL OPEN: these are per-operation statements; there is no closure theorem over histories that contain
+    `encoded=True` steps (no C15 invariant over `ReachE`, ReachE.lean — there cannot be an unconditional one).
+    CLOSED (the closure theorem; first clause of the property only) by C15_reachE_no_dot_segments, C15_reachE_inv,
+    C15_ReachE.toReachEX / .toReachE, C15_ctorEnc_inv_iff, C15_buildEnc_inv_iff, C15_withPathEnc_inv_iff,
+    C15_joinpathEnc_inv, C15_reachE_ctorEnc_condition_needed, C15_reachE_buildEnc_condition_needed,
+    C15_reachE_withPathEnc_condition_needed, C15_reachE_rootless_build_needed, C15_reachEX_no_dot_segments_false,
+    C15_reachE_joinpathEnc_instances, C15_reachE_example (C15ReachE.lean), see C15_headline_reachE_no_dot_segments,
+    C15_headline_reachE_invariant, C15_headline_reachE_side_conditions_def, C15_headline_reachE_side_conditions_exact,
+    C15_headline_reachE_is_subclosure, C15_headline_reachE_conditions_needed,
+    C15_headline_reachE_rootless_build_needed, C15_headline_reachEX_closure_fails_for_rootless_build,
+    C15_headline_reachE_joinpath_encoded_instances, C15_headline_reachE_example (C15HeadlineMore5.lean).  Proved: every
+    URL of the inductive closure `C15_ReachE A Z Sc e` — `ReachEX A Z Sc e` (ALL entry points of the model: both
+    constructor modes, both `build` modes, the 18 operations other than `UOp.joinRef` with Python-string arguments,
+    with_path(…, encoded=True), joinpath(…, encoded=True), `join` of two members; `A`, `Z`, `Sc` arbitrary) with ONE
+    extra premise on each `encoded=True` entry point that stores its text verbatim — has, when it has an authority, a
+    path without "." / ".." segments that is empty or starts with '/'.  The side conditions (decidable on the arguments;
+    no backend, no oracle; spelled out in C15_headline_reachE_side_conditions_def):
+      `URL(s, encoded=True)`           `C15_CtorEncOK s`: if the Appendix-B authority of the cleaned `s` is non-empty, its
+                                       Appendix-B path has no dot segment;
+      `URL.build(…, encoded=True)`     `C15_BuildEncOK a`: if `authority=` or `host=` is non-empty, `path=` has no dot segment
+                                       AND is empty or starts with '/';
+      `u.with_path(p, encoded=True)`   `C15_WithPathEncOK u p`: if `u` has an authority, `p` has no dot segment;
+      `u.joinpath(*ps, encoded=True)`  NOTHING.
+    Each condition is EQUIVALENT to "the invariant `C15_Inv` (no dot segment ∧ empty-or-rooted, under an authority)
+    holds right after this call", so none can be weakened entry by entry; each is NEEDED (one Python-level witness per
+    condition, both backends).  PROVED FALSE: the closure statement in the form first asked for — "if every text handed
+    over with `encoded=True` is free of dot segments, every `ReachEX` URL with an authority is" —
+    (C15_headline_reachEX_closure_fails_for_rootless_build): `URL.build(scheme='http', host='h', path='x/',
+    encoded=True).join(URL('../x../y')).with_name('n')` has the path "/../n" under "h" although no `encoded=True` text has
+    a dot segment; hence the "empty or rooted" half of `C15_BuildEncOK` (C15ReachE.lean reports the three calls as
+    confirmed on the library, pure-Python backend; that is outside Lean and not a probe row).  Not a defect
+    (`encoded=True` is the caller's promise), NOT in KNOWN_FINDINGS.jsonl.
+    STILL OPEN in this item: the closure theorem is the FIRST clause only ("contains no '.' or '..' segment", plus
+    rootedness); nothing over `C15_ReachE` about "equals remove_dot_segments of the supplied or merged path" nor about
+    the "%2E" clause (with `encoded=True` a "%2E%2E" segment is stored as it is and is not a dot segment for
+    `NoDotSegments`: C15_headline_reachE_joinpath_encoded_instances; items 1, 5).  The side conditions are SUFFICIENT for
+    the final URL, exact only step by step: a history that violates one and repairs it later (`with_path(p)` after a
+    dirty `URL(s, encoded=True)`) is outside `C15_ReachE` although its result is clean — for such histories the
+    per-operation equivalences above remain the tool.  `UOp.joinRef` (model artefact) is not in the closure.  For a
     receiver WITH dot segments the second clause ("equals remove_dot_segments of the merged path") is not compared with
     §5.2.4: C15_headline_rfc_joinpath keeps its guard `NoDotSegments u.path`, and C15_headline_derived_joinpath_exact
     gives the stored path only in terms of `normalize_path_segments`.  with_name / with_suffix / parent on a ROOTLESS
@@ -468,6 +506,15 @@ GAPS:
     count) — the earlier text of this item listed joinpath among the skipping entry points, which was wrong.
     Hypotheses: none beyond success of the call.  Remaining (not a proof gap): the property text ("however produced")
     does not mention the exemption.
+    EXTENDED by C15_ctorEnc_inv_iff, C15_buildEnc_inv_iff, C15_withPathEnc_inv_iff, C15_joinpathEnc_inv,
+    C15_ctorEncOK_of_canonicalB (C15ReachE.lean) and C03_encoded_true_on_canonical (C03Encoded.lean), see
+    C15_headline_reachE_side_conditions_exact, C15_headline_encoded_true_canonical_text_admissible
+    (C15HeadlineMore5.lean).  The "IFF the supplied path has none" of this item is restated with rootedness and with the
+    authority test on the ARGUMENTS (the invariant `C15_Inv` of the result ⇔ the side condition of item 4 on the call),
+    for `build` including "path= is empty or rooted"; `joinpath(…, encoded=True)` keeps `C15_Inv` for ANY arguments.
+    POSITIVE corner: every text the checker `canonicalB` (C04Decide.lean) accepts satisfies `C15_CtorEncOK`, and
+    `URL(s, encoded=True)` then prints `s` and has no dot segment and a rooted-or-empty path under its authority (on such
+    text it is the auto-encoding constructor: C03Headline.lean GAPS 6).
  6. PARTLY CLOSED by C15_rfc_join_excluded_cases, C15_rfc_join_no_authority, C15_rfc_join_url_no_authority,
     C15_rfc_join_authority_rootless_base, C15_rfc_join_authority_rootless_base_instances (C15More2.lean, over
     C14More.lean), see C15_headline_rfc_join_excluded_cases, C15_headline_rfc_join_path_no_authority,
@@ -498,5 +545,24 @@ GAPS:
     (C15_headline_derived_join_iff + _derived_join_ref + _derived_join_ref_verbatim; `uses_relative ⊆ uses_netloc` is
     C14_relative_subset_authority, a computed fact about the generated tables).  The witnesses named "instances" are
     evaluated in the model on both backends; that CPython agrees is the differential harness, not a proof.
+    PARTLY CLOSED by C15_reachE_inv (C15ReachE.lean), see C15_headline_reachE_invariant (C15HeadlineMore5.lean): over the
+    closure `C15_ReachE` of item 4 the side condition "`u.path` is rooted (or empty) under an authority" of the
+    with_name / with_suffix / parent equivalences is DISCHARGED (second half of `C15_Inv`); `PyStr` of the arguments is a
+    premise of the closure (`op.ArgsPy`), `r ≠ ""` for parent stays.
+ 8. NEW (trusted definitions and side conditions introduced by the closure of item 4, C15ReachE.lean).
+    (a) `C15_ReachE` is an INDUCTIVE definition to be read (eight constructors: ctor, ctorEnc, build, buildEnc, op,
+    withPathEnc, childEnc, join); that it is `ReachEX` plus three premises is PROVED in one direction only
+    (`C15_ReachE.toReachEX`: every member is a `ReachEX` member with the same classes) — the converse "a `ReachEX` URL
+    whose `encoded=True` calls satisfy the conditions is a member" is true by reading the constructors side by side,
+    not a theorem.  `ReachEX` / `ReachE` themselves are closures over the entry points OF THE MODEL (ReachE.lean;
+    C19Headline.lean GAPS 7).  (b) `C15_CtorEncOK` is stated through `Rfc.appendixB Gen.schemeChars (cleanUrl s)`
+    (C07Headline.lean GAPS 6), not through the library's parser; they agree whenever `split_url` succeeds
+    (C07_preencoded_accessors, used in the proof of C15_ctorEnc_inv_iff).  (c) `C15_BuildEncOK` tests `authority=` /
+    `host=` for NON-EMPTINESS of the argument texts; that this is "the stored authority is non-empty" is
+    R14.encBuildNetloc_ne_nil (C15ReachE.lean).  (d) The premises `A` (class of every `encoded=True` text, also imposed
+    on the scheme / host texts of `build`), `Z`, `Sc` are inherited from `ReachEX` and play no role for C15 — take
+    `fun _ => True`, as C15_headline_reachE_example does.  (e) The Python-level witnesses are evaluated in the model
+    with `Oracles.empty` on both backends; C15ReachE.lean's remark "confirmed on the library (pure-Python backend)" for
+    the rootless-build history is a manual check, not part of the evidence run.
 -/
 end Yarl
